@@ -267,4 +267,107 @@ theorem parseFile_ids {data : Bytes} {stmts : List Expr} {i' : Input} (h : parse
     simp only [List.reverse_nil, idsOf, linesOf_nil, List.map_nil, List.nil_append]
     exact List.nodup_range'
 
+
+/-! ### comment assignment keeps the lines -/
+
+/-- the keys of the lines of each statement -/
+def keysL (xs : List Expr) : List (List (Nat × Position)) := xs.map fun x => (linesOf [x]).map lineKey
+
+theorem keys_eq_flatten (xs : List Expr) : (linesOf xs).map lineKey = (keysL xs).flatten := by
+  induction xs with
+  | nil => rfl
+  | cons x rest ih =>
+    simp only [keysL, List.map_cons, List.flatten_cons] at ih ⊢
+    rw [← ih]
+    cases x <;> simp
+
+theorem preLines_keys : ∀ (ls : List Line) (line : List Comment), (preLines ls line).1.map lineKey = ls.map lineKey := by
+  intro ls
+  induction ls with
+  | nil => intro line; rfl
+  | cons l rest ih =>
+    intro line
+    unfold preLines
+    simp only [List.map_cons, ih]
+    rfl
+
+theorem postLinesRev_keys : ∀ (ls : List Line) (suf : List Comment),
+    (postLinesRev ls suf).1.map lineKey = ls.map lineKey := by
+  intro ls
+  induction ls with
+  | nil => intro line; rfl
+  | cons l rest ih =>
+    intro line
+    unfold postLinesRev
+    simp only [List.map_cons, ih]
+    rfl
+
+theorem preStmt_keys (s : Expr) (line : List Comment) :
+    (linesOf [(preStmt s line).1]).map lineKey = (linesOf [s]).map lineKey := by
+  cases s with
+  | lineBlock b =>
+    unfold preStmt
+    simp only [linesOf_block, linesOf_nil, List.append_nil, preLines_keys]
+  | line x => simp [preStmt, Expr.setComments, lineKey]
+  | commentBlock x => simp [preStmt, Expr.setComments]
+  | lparen x => simp [preStmt, Expr.setComments]
+  | rparen x => simp [preStmt, Expr.setComments]
+
+theorem postStmt_keys (s : Expr) (suf : List Comment) :
+    (linesOf [(postStmt s suf).1]).map lineKey = (linesOf [s]).map lineKey := by
+  cases s with
+  | lineBlock b =>
+    unfold postStmt
+    simp only [linesOf_block, linesOf_nil, List.append_nil, List.map_reverse, postLinesRev_keys, List.reverse_reverse]
+  | line x => simp [postStmt, Expr.setComments, lineKey]
+  | commentBlock x => simp [postStmt, Expr.setComments]
+  | lparen x => simp [postStmt, Expr.setComments]
+  | rparen x => simp [postStmt, Expr.setComments]
+
+theorem preStmts_keysL : ∀ (ss : List Expr) (line : List Comment), keysL (preStmts ss line).1 = keysL ss := by
+  intro ss
+  induction ss with
+  | nil => intro line; rfl
+  | cons s rest ih =>
+    intro line
+    unfold preStmts
+    simp only [keysL, List.map_cons] at ih ⊢
+    rw [ih, preStmt_keys]
+
+theorem postStmtsRev_keysL : ∀ (ss : List Expr) (suf : List Comment), keysL (postStmtsRev ss suf).1 = keysL ss := by
+  intro ss
+  induction ss with
+  | nil => intro line; rfl
+  | cons s rest ih =>
+    intro suf
+    unfold postStmtsRev
+    simp only [keysL, List.map_cons] at ih ⊢
+    rw [ih, postStmt_keys]
+
+theorem assignComments_keys (f : FileSyntax) (cs : List Comment) :
+    (linesOf (assignComments f cs).stmts).map lineKey = (linesOf f.stmts).map lineKey := by
+  rw [keys_eq_flatten, keys_eq_flatten]
+  congr 1
+  unfold assignComments
+  simp only
+  have hrev : ∀ xs : List Expr, keysL xs.reverse = (keysL xs).reverse := fun xs => by simp [keysL]
+  rw [hrev, postStmtsRev_keysL, hrev, List.reverse_reverse, preStmts_keysL]
+
+/-- The line identities of a parsed tree are pairwise distinct. -/
+theorem parse_ids_nodup {name data : Bytes} {t : FileSyntax} (h : parse name data = .ok t) :
+    ((linesOf t.stmts).map (·.id)).Nodup := by
+  unfold parse at h
+  cases hp : parseFile data with
+  | error e => simp [hp, bind, Except.bind] at h
+  | ok v =>
+    simp only [hp, bind, Except.bind, Except.ok.injEq] at h
+    subst h
+    have hk := assignComments_keys { name := name, stmts := v.1 } v.2.commentsRev.reverse
+    have hn := parseFile_ids (show parseFile data = .ok (v.1, v.2) by rw [hp])
+    have : (linesOf (assignComments { name := name, stmts := v.1 } v.2.commentsRev.reverse).stmts).map (·.id) =
+        idsOf v.1 := by
+      have := congrArg (List.map Prod.fst) hk
+      simpa [List.map_map, lineKey, idsOf, Function.comp_def] using this
+    rw [this]; exact hn
+
 end ModVerif.Proofs.ModfileC20
